@@ -46,10 +46,8 @@ newline"`)
 		val("vector", `#(1 "two" three (4 5) #(6))`)
 		val("vector", `(make-array 3 :initial-element 0)`)
 		val("vector", `(make-array 3 :element-type 'fixnum :initial-contents '(1 2 3))`)
-		val("vector", `(make-array 0)`)
 		val("array", `(make-array '(2 3) :initial-contents '((1 2 3) (a "b" :c)))`)
 		val("array", `(make-array '(2 2 2) :initial-element 7 :adjustable t)`)
-		val("array", `(make-array nil :initial-element 5)`)
 		val("hash-table", `(make-hash-table)`)
 		val("hash-table", `(let ((h (make-hash-table))) (setf (gethash 'a h) 1) (setf (gethash "b" h) "two") (setf (gethash 3 h) :three) (setf (gethash :k h) #(1 2)) h)`)
 		for _, kind := range valueKinds {
@@ -102,8 +100,9 @@ newline"`)
 			fixedBlock = append(fixedBlock, buildSessionCase(rnd(), "", 6+j*3))
 		}
 		for _, feat := range sessionFeats {
-			for j := 0; j < 3; j++ {
-				fixedBlock = append(fixedBlock, buildSessionCase(rnd(), feat, 4+j*2))
+			// the first one holds nothing but the construct: the smallest witness
+			for j := 0; j < 4; j++ {
+				fixedBlock = append(fixedBlock, buildSessionCase(rnd(), feat, j*2))
 			}
 		}
 		for j := 0; j < 2; j++ {
@@ -134,7 +133,7 @@ func worldTrouble(x *fw.Ctx, c Case, which string, wr WorldResult) bool {
 		x.Fail("harness-world", "world %s could not be run: %s", which, wr.Broken)
 		return true
 	case wr.Hung:
-		x.Fail(sigOf(c, "hang-"+which), "the %s process made no progress for 120 s (twice); last completed step %d", which, len(wr.Resp.Outs))
+		x.Fail(sigOf(c, "hang-"+which), "the %s process did not finish within 45 s (tried twice); last completed step %d", which, len(wr.Resp.Outs))
 		return true
 	}
 	return false
@@ -356,7 +355,36 @@ func execSession(x *fw.Ctx, c Case) {
 	x.Cover(fmt.Sprintf("margin:%d-%d", m/20*20, m/20*20+19))
 	dir := caseDir(x)
 	defer os.RemoveAll(dir)
-	sig := func(fail, item string) string { return sigOf(c, fail) + " item=" + item }
+	// In a session that carries an avoid-set construct, a failure of the whole
+	// round trip or of the item carrying the construct is attributed to the
+	// construct; a failure of any other item names that item.
+	feat := c.Feat
+	if feat == "" {
+		feat = "-"
+	}
+	sig := func(fail, item string) string {
+		if item == "-" || item == "" {
+			return fmt.Sprintf("session feat=%s fail=%s", feat, fail)
+		}
+		if c.Feat != "" {
+			// an item that does not carry the session's construct fails
+			return fmt.Sprintf("session-other feat=%s fail=%s item=%s", feat, fail, item)
+		}
+		return fmt.Sprintf("session feat=%s fail=%s item=%s", feat, fail, item)
+	}
+	dirtyKind := func(kind string) string {
+		// the kind of an item for the signature: "-" if it is (one of) the
+		// item(s) carrying the session's construct
+		for _, it := range c.Items {
+			if it.Feat != "" && it.Feat == c.Feat && it.Kind == kind {
+				return "-"
+			}
+		}
+		if kind == "flavor" && (c.Feat == "multi-flavor" || c.Feat == "flavor-parent") {
+			return "-"
+		}
+		return kind
+	}
 	obs := map[string]any{}
 	x.Observe(obs)
 
@@ -397,7 +425,7 @@ func execSession(x *fw.Ctx, c Case) {
 	if len(outs) <= nforms {
 		// died or stopped before the snapshot was reached
 		if len(outs) < nforms {
-			x.Fail(sig("fatal-building", c.Items[formItem[len(outs)]].Kind), "the process died while evaluating %s: %s", a.Steps[len(outs)].Src, wa.Fatal)
+			x.Fail(sig("fatal-building", dirtyKind(c.Items[formItem[len(outs)]].Kind)), "the process died while evaluating %s: %s", a.Steps[len(outs)].Src, wa.Fatal)
 			return
 		}
 		x.Fail(sig("fatal-snapshot", "-"), "the process died while taking the snapshot of the session: %s", wa.Fatal)
@@ -476,7 +504,7 @@ func execSession(x *fw.Ctx, c Case) {
 		if item == "-" {
 			item = itemOfText(c, d2)
 		}
-		x.Fail(sig("not-fixed-point", item), "the snapshot of the reloaded session differs from the snapshot it was loaded from (margin %d); first differing form\nfirst:\n%s\nsecond:\n%s",
+		x.Fail(sig("not-fixed-point", dirtyKind(item)), "the snapshot of the reloaded session differs from the snapshot it was loaded from (margin %d); first differing form\nfirst:\n%s\nsecond:\n%s",
 			m, clip(d1, 600), clip(d2, 600))
 		return
 	}
@@ -498,7 +526,11 @@ func execSession(x *fw.Ctx, c Case) {
 		}
 		if pa != pb {
 			it := c.Items[p.item]
-			x.Fail(sig("behaviour", it.Kind), "%s gives %s in the session and %s in the fresh process that loaded its snapshot (margin %d); definition %v",
+			ik := it.Kind
+			if it.Feat != "" && it.Feat == c.Feat {
+				ik = "-"
+			}
+			x.Fail(sig("behaviour", ik), "%s gives %s in the session and %s in the fresh process that loaded its snapshot (margin %d); definition %v",
 				it.Probes[p.k], clip(pa, 300), clip(pb, 300), m, it.Forms)
 			return
 		}
